@@ -254,12 +254,13 @@ Fixpoint attrs_mirrored (src ts is_ : list (list attr)) : bool :=
   | _, _, _ => false
   end.
 
-(** every [cfg] of a source fn is on its trait method and on its implementation method *)
+(** the attributes of a trait method and of its implementation method are exactly the [cfg]s of the source fn, in
+    order: every [cfg] is mirrored, and nothing else ([cfg_attr], docs, lints, other macros) is copied *)
 Fixpoint cfgs_mirrored (src ts is_ : list (list attr)) : bool :=
   match src, ts, is_ with
   | [], [], [] => true
   | a :: src', t :: ts', i :: is' =>
-      forallb (fun x => existsb (toks_eqb x) t && existsb (toks_eqb x) i) (filter is_cfg a) &&
+      toks_list_eqb (filter is_cfg a) t && toks_list_eqb (filter is_cfg a) i &&
       cfgs_mirrored src' ts' is'
   | _, _, _ => false
   end.
